@@ -286,6 +286,127 @@ def field_names(text):
     return out
 
 
+CFG_FILES = ["lib.rs", "format.rs", "parse.rs", "builder.rs", "package_type.rs", "qualifiers.rs", "qualifiers/well_known.rs",
+             "qualifiers/well_known/gem.rs", "qualifiers/well_known/maven.rs"]
+ITEM_RE = re.compile(r"(?:pub(?:\s*\([^)]*\))?\s+)?(?:unsafe\s+)?(?:default\s+)?(?:const\s+(?=fn))?(?:async\s+)?(?:extern\s+\"[^\"]*\"\s+)?"
+                     r"(use|mod|type|impl|fn|struct|enum|trait|static|const|let|macro_rules!)\b")
+
+
+def _skip_literal(text, i):
+    """index after the string / char literal starting at i, or None"""
+    n = len(text)
+    m = re.match(r'b?r(#*)"', text[i:i + 8])
+    if m:
+        close = '"' + m.group(1)
+        j = text.find(close, i + m.end())
+        return n if j < 0 else j + len(close)
+    if text[i] == '"' or text.startswith('b"', i):
+        j = i + (2 if text[i] == "b" else 1)
+        while j < n and text[j] != '"':
+            j += 2 if text[j] == "\\" else 1
+        return j + 1
+    if text[i] == "'" or text.startswith("b'", i):
+        k = i + (2 if text[i] == "b" else 1)
+        m = re.match(r"(\\.|\\x[0-9a-fA-F]{2}|\\u\{[0-9a-fA-F]+\}|[^\\'])'", text[k:])
+        if m:
+            return k + m.end()
+    return None
+
+
+def _balanced(text, i, open_, close):
+    """text[i] == open_: index after the matching close (literals skipped)"""
+    depth, n = 0, len(text)
+    while i < n:
+        j = _skip_literal(text, i)
+        if j is not None:
+            i = j
+            continue
+        if text[i] == open_:
+            depth += 1
+        elif text[i] == close:
+            depth -= 1
+            if depth == 0:
+                return i + 1
+        i += 1
+    return n
+
+
+def cfg_sites():
+    """every conditional-compilation site of the non-test source: `#[cfg(..)]`, `#![cfg(..)]`, `#[cfg_attr(.., ..)]`,
+    `cfg!(..)` — with the kind of item it is attached to and the brace depth it stands at.  (C17: a feature may only ADD
+    items — uses, modules, impls, derives — and choose the SmallString alias; anything conditional inside a function, on a
+    function, or a second pair of alternative definitions is reported by the theorem C17.features_only_add_items.)"""
+    sites = []
+    for fn in CFG_FILES:
+        try:
+            _, text = read(fn)
+        except OSError:
+            continue
+        i, n, depth = 0, len(text), 0
+        while i < n:
+            j = _skip_literal(text, i)
+            if j is not None:
+                i = j
+                continue
+            c = text[i]
+            if c == "{":
+                depth += 1
+            elif c == "}":
+                depth -= 1
+            m = re.match(r"#!?\[\s*(cfg_attr|cfg)\s*\(", text[i:i + 40]) if c == "#" else (re.match(r"cfg!\s*\(", text[i:i + 12]) if text.startswith("cfg!", i) else None)
+            if not m:
+                i += 1
+                continue
+            is_macro = c != "#"
+            par = i + m.end() - 1
+            end_par = _balanced(text, par, "(", ")")
+            inner = re.sub(r"\s+", "", text[par + 1:end_par - 1])
+            which = "cfg!" if is_macro else m.group(1)
+            after = end_par if is_macro else _balanced(text, text.index("[", i), "[", "]")
+            cond, rest = inner, ""
+            if which == "cfg_attr":
+                # condition = first top-level comma-separated argument
+                d, k = 0, 0
+                for k, ch in enumerate(inner):
+                    if ch == "(":
+                        d += 1
+                    elif ch == ")":
+                        d -= 1
+                    elif ch == "," and d == 0:
+                        break
+                cond, rest = inner[:k], inner[k + 1:]
+            # the item the attribute is attached to: skip further attributes
+            k = after
+            while True:
+                mm = re.match(r"\s*#!?\[", text[k:k + 200])
+                if not mm:
+                    break
+                k = _balanced(text, k + mm.end() - 1, "[", "]")
+            im = ITEM_RE.match(text[k:].lstrip()[:200])
+            kind = im.group(1) if im else "expr"
+            if cond == "test":
+                if kind == "mod" and not is_macro:
+                    # skip the whole test module
+                    b = text.find("{", k)
+                    semi = text.find(";", k)
+                    i = _balanced(text, b, "{", "}") if b >= 0 and (semi < 0 or b < semi) else after
+                else:
+                    i = after
+                continue
+            if cond == "docsrs":
+                i = after
+                continue
+            if is_macro:
+                kind = "expr"
+            elif which == "cfg_attr":
+                kind = "derive" if re.match(r"(derive|serde)\(", rest) else "attr"
+            elif kind in ("struct", "enum", "trait", "static", "const", "let", "macro_rules!", "expr"):
+                kind = "other"
+            sites.append({"file": fn, "cond": cond, "kind": kind, "depth": depth, "negated": "not(" in cond})
+            i = after
+    return sites
+
+
 def lean_char(c):
     return "Char.ofNat 0x%X" % ord(c)
 
@@ -406,6 +527,7 @@ def translate():
     attempt("combined", do_combined)
     attempt("errors", do_errors)
     out["untranslated"] = failed
+    out["cfgSites"] = cfg_sites()
     return out
 
 
@@ -479,6 +601,22 @@ def emit_lean(t):
     L.append("def unsupportedPackageTypeText : String := %s" % json.dumps(t["unsupportedPackageTypeText"]))
     for k, v in sorted(t["fieldNames"].items()):
         L.append("def fieldName_%s : String := %s" % (k, json.dumps(v)))
+    L.append("")
+    L.append("/-! Conditional compilation sites of the non-test source (C17). -/")
+    L.append("inductive CfgKind where")
+    L.append("  | use | mod | type | impl | derive | fn | attr | expr | other")
+    L.append("  deriving DecidableEq, Repr")
+    L.append("structure CfgSite where")
+    L.append("  file : String")
+    L.append("  cond : String")
+    L.append("  kind : CfgKind")
+    L.append("  depth : Nat")
+    L.append("  negated : Bool")
+    L.append("  deriving Repr")
+    L.append("def cfgSites : List CfgSite := [")
+    L.append(",\n".join("  { file := %s, cond := %s, kind := .%s, depth := %d, negated := %s }" % (
+        json.dumps(x["file"]), json.dumps(x["cond"]), x["kind"], x["depth"], "true" if x["negated"] else "false") for x in t.get("cfgSites", [])))
+    L.append("]")
     L.append("")
     L.append("end Purl.Generated")
     return "\n".join(L) + "\n"
